@@ -183,3 +183,36 @@ def scenario_from_behaviour(acts, consts, sid):
             "onnew": b("OnNew"), "onerr": b("OnErr"), "cbcap": int(consts["CbCap"]), "def": {"x": 1, "y": 2, "u": False},
             "init": VALSETS[consts["InitVal"]][:nsrc], "procs": procs, "schedule": sched, "oracle": True, "maxsteps": 400,
             "pcancel": 0.0, "cancelok": [], "spec_actions": [a.get("a") for a in acts if a.get("a") != "Init"]}
+
+
+def apalache_inductive(scratch):
+    """DialsCore.tla: IndInv holds initially and is preserved by every step (Apalache, symbolic, serials unbounded); with the seeded
+    mistake switched on the same check must fail (self-test)."""
+    import shutil
+    import subprocess
+    d = scratch.sub("apalache")
+    C.copy_specs(d, ["DialsCore.tla"])
+    if not shutil.which("apalache-mc"):
+        raise C.Inconclusive("apalache-mc is not on PATH")
+
+    def run(cinit, init, length):
+        try:
+            p = subprocess.run(["apalache-mc", "check", "--cinit=" + cinit, "--init=" + init, "--inv=IndInv", "--length=%d" % length,
+                                "--out-dir=" + os.path.join(d, "out"), "DialsCore.tla"], cwd=d, capture_output=True, text=True, timeout=900)
+        except subprocess.TimeoutExpired:
+            raise C.Inconclusive("apalache timed out")
+        out = p.stdout + p.stderr
+        if "The outcome is: NoError" in out:
+            return True
+        if "The outcome is: Error" in out or "violat" in out.lower():
+            return False
+        raise C.Inconclusive("apalache failed:\n" + out[-2000:])
+    base = run("ConstInit", "Init", 0)
+    step = run("ConstInit", "IndInit", 1)
+    bug = run("ConstInitBug", "IndInit", 1)
+    if not (base and step):
+        raise C.Inconclusive("DialsCore.tla: IndInv is not inductive (base %s, step %s): specification alarm" % (base, step))
+    if bug:
+        raise C.Inconclusive("DialsCore.tla self-test: the seeded mistake no longer breaks IndInv")
+    return {"spec": "DialsCore.tla", "invariant": "IndInv = TypeOK /\\ VisibleVerified /\\ FreshOrLastGood /\\ SerialCounts",
+            "base_case": base, "inductive_step": step, "seeded_mistake_breaks_it": not bug, "tool": "apalache-mc check --length=0/1"}
